@@ -47,6 +47,8 @@ structure Fixes where
   helperClashErr : Bool := false
   /-- N3: a rule named `EMPTY`, `AUG` or `AUGL` → diagnostic (C09-fix-8) -/
   reservedErr : Bool := false
+  /-- N3b: a reference to `AUG` / `AUGL` in a production → diagnostic (repo 898fba1; it hung the table builder) -/
+  reservedRefErr : Bool := false
   /-- C16 (repo 15a0fce): a production kind that is no Rust identifier → diagnostic -/
   kindIdentErr : Bool := false
   /-- C16 (repo 3da879f): a reference to `STOP` in a production → diagnostic -/
@@ -56,13 +58,13 @@ deriving DecidableEq, Repr, Inhabited
 def Fixes.all : Fixes :=
   { emptyErr := true, sepInName := true, assocOne := true, groupErr := true, greedyErr := true,
     modifiersErr := true, noRulesErr := true, intErr := true, dupNameErr := true, helperClashErr := true,
-    kindIdentErr := true, stopRefErr := true, reservedErr := true }
+    kindIdentErr := true, stopRefErr := true, reservedErr := true, reservedRefErr := true }
 
 /-- the variant of the code that is in `/repo` (flip a flag when its fix commit lands) -/
 def repoVariant : Fixes :=
   { emptyErr := true, assocOne := true, groupErr := true, greedyErr := true, modifiersErr := true,
     noRulesErr := true, dupNameErr := true, kindIdentErr := true, stopRefErr := true,
-    reservedErr := true, helperClashErr := true }
+    reservedErr := true, helperClashErr := true, reservedRefErr := true }
 
 /-- panic sites reachable in the front end -/
 inductive Site where
@@ -577,7 +579,15 @@ def resolveInline (mm : SMap (Name × Nat)) : List GProd → R (List GProd)
     (resolveInlineRhs mm p.idx p.rhs).bind fun rhs =>
     (resolveInline mm ps).bind fun ps' => .ok ({ p with rhs := rhs } :: ps')
 
-def resolveSym (stopErr : Bool) (terms : SMap Term) (nts : List NonTerm) (p : GProd) (rhsLen : Nat) (a : RAssign) :
+/-- the variant flags `resolve_references` depends on -/
+structure RFlags where
+  stop : Bool
+  reserved : Bool
+deriving DecidableEq, Repr, Inhabited
+
+def Fixes.rflags (fx : Fixes) : RFlags := { stop := fx.stopRefErr, reserved := fx.reservedRefErr }
+
+def resolveSym (stopErr : RFlags) (terms : SMap Term) (nts : List NonTerm) (p : GProd) (rhsLen : Nat) (a : RAssign) :
     R RAssign :=
   match a.index with
   | some _ => .ok a
@@ -585,7 +595,9 @@ def resolveSym (stopErr : Bool) (terms : SMap Term) (nts : List NonTerm) (p : GP
     match a.sym with
     | .name n =>
       -- repaired variant (repo 3da879f): `STOP` cannot be referenced, checked before the terminal lookup
-      if stopErr && n == kSTOP then .err (.stopRef p.idx) else
+      -- repaired variant (repo 898fba1): the augmented nonterminals cannot be referenced, checked first
+      if stopErr.reserved && (n == kAUG || n == kAUGL) then .err (.reserved n) else
+      if stopErr.stop && n == kSTOP then .err (.stopRef p.idx) else
       match terms.get? n with
       | some t => .ok { a with index := some t.idx }
       | none =>
@@ -599,7 +611,7 @@ def resolveSym (stopErr : Bool) (terms : SMap Term) (nts : List NonTerm) (p : GP
       | some t => .ok { a with index := some t.idx }
       | none => .panic .strConstUnresolved
 
-def resolveRhs (stopErr : Bool) (terms : SMap Term) (nts : List NonTerm) (p : GProd) (rhsLen : Nat) :
+def resolveRhs (stopErr : RFlags) (terms : SMap Term) (nts : List NonTerm) (p : GProd) (rhsLen : Nat) :
     List RAssign → R (List RAssign)
   | [] => .ok []
   | a :: as =>
@@ -607,7 +619,7 @@ def resolveRhs (stopErr : Bool) (terms : SMap Term) (nts : List NonTerm) (p : GP
     (resolveRhs stopErr terms nts p rhsLen as).bind fun xs => .ok (x :: xs)
 
 /-- `resolve_references` -/
-def resolveRefs (stopErr : Bool) (terms : SMap Term) (nts : List NonTerm) : List GProd → R (List GProd)
+def resolveRefs (stopErr : RFlags) (terms : SMap Term) (nts : List NonTerm) : List GProd → R (List GProd)
   | [] => .ok []
   | p :: ps =>
     (resolveRhs stopErr terms nts p p.rhs.length p.rhs).bind fun rhs =>
@@ -740,7 +752,7 @@ def build (fx : Fixes) (f : File) : R Grammar :=
     (termPhase fx f).bind fun ts =>
     (rulePhase fx f ts).bind fun xs =>
     (resolveInline (matchesOf f ts) xs.1.prods).bind fun ps1 =>
-    (resolveRefs fx.stopRefErr ts.terms xs.1.nts ps1).bind fun ps2 =>
+    (resolveRefs fx.rflags ts.terms xs.1.nts ps1).bind fun ps2 =>
     (assemble ts.terms xs.1.nts ps2 xs.2).bind fun g =>
     markReachable g
 
